@@ -164,76 +164,54 @@ theorem mem_loOf {t : Nat} {l : List Node} {a : Node} : a ∈ loOf t l ↔ a ∈
 
 /-! ### the coded search for the tie range -/
 
-theorem tieLoop_hi (t : Nat) (hi r : List Node) (i s e : Nat) (h : ∀ a ∈ hi, a.stake > t) :
+theorem tieLoop_hi (t : Nat) (hi r : List Node) (i : Nat) (s : Option Nat) (e : Nat) (h : ∀ a ∈ hi, a.stake > t) :
     tieLoop t (hi ++ r) i s e = tieLoop t r (i + hi.length) s e := by
   induction hi generalizing i with
   | nil => simp
   | cons a hi ih =>
     have ha : a.stake > t := h a (List.mem_cons_self ..)
-    have g1 : ¬ (s = 0 ∧ a.stake = t) := by omega
+    have g1 : ¬ (s.isNone = true ∧ a.stake = t) := fun hh => by have := hh.2; omega
     have g2 : ¬ a.stake < t := by omega
     simp only [List.cons_append, tieLoop, g1, g2, ↓reduceIte, List.length_cons]
     rw [ih (i + 1) (fun b hb => h b (List.mem_cons_of_mem _ hb))]
     congr 1; omega
 
-theorem tieLoop_eq_nz (t : Nat) (eq r : List Node) (i s e : Nat) (hs : s ≠ 0) (h : ∀ a ∈ eq, a.stake = t) :
-    tieLoop t (eq ++ r) i s e = tieLoop t r (i + eq.length) s e := by
+theorem tieLoop_eq_some (t : Nat) (eq r : List Node) (i k e : Nat) (h : ∀ a ∈ eq, a.stake = t) :
+    tieLoop t (eq ++ r) i (some k) e = tieLoop t r (i + eq.length) (some k) e := by
   induction eq generalizing i with
   | nil => simp
   | cons a eq ih =>
     have ha : a.stake = t := h a (List.mem_cons_self ..)
-    have g1 : ¬ (s = 0 ∧ a.stake = t) := by omega
     have g2 : ¬ a.stake < t := by omega
-    simp only [List.cons_append, tieLoop, g1, g2, ↓reduceIte, List.length_cons]
+    simp only [List.cons_append, tieLoop, Option.isNone_some, Bool.false_eq_true, false_and, g2, ↓reduceIte,
+      List.length_cons]
     rw [ih (i + 1) (fun b hb => h b (List.mem_cons_of_mem _ hb))]
     congr 1; omega
 
-theorem tieLoop_lo (t : Nat) (lo : List Node) (i s e : Nat) (h : ∀ a ∈ lo, a.stake < t) :
+theorem tieLoop_lo (t : Nat) (lo : List Node) (i : Nat) (s : Option Nat) (e : Nat) (h : ∀ a ∈ lo, a.stake < t) :
     tieLoop t lo i s e = (s, if lo = [] then e else i) := by
   cases lo with
   | nil => simp [tieLoop]
   | cons a lo =>
     have ha : a.stake < t := h a (List.mem_cons_self ..)
-    have g1 : ¬ (s = 0 ∧ a.stake = t) := by omega
-    simp [tieLoop, g1, ha]
-
-/-- the start index the coded loop computes, as a function of the number of higher-staked entries and
-the number of tied entries: the tie range really starts at `nhi`; the loop answers `1` instead of `0`
-when `nhi = 0` and at least two entries are tied (`s == 0` doubles as "not yet found"). -/
-def codedStart (nhi neq : Nat) : Nat := if nhi = 0 then (if 2 ≤ neq then 1 else 0) else nhi
+    have g1 : ¬ (s.isNone = true ∧ a.stake = t) := fun hh => by have := hh.2; omega
+    simp only [tieLoop, g1, ha, ↓reduceIte]
+    simp
 
 theorem tieLoop_spec (t : Nat) (hi eq lo : List Node)
     (hhi : ∀ a ∈ hi, a.stake > t) (heq : ∀ a ∈ eq, a.stake = t) (hlo : ∀ a ∈ lo, a.stake < t)
     (hne : eq ≠ []) :
-    tieLoop t (hi ++ eq ++ lo) 0 0 (hi ++ eq ++ lo).length
-      = (codedStart hi.length eq.length, hi.length + eq.length) := by
-  rw [List.append_assoc, tieLoop_hi t hi _ 0 0 _ hhi]
+    tieLoop t (hi ++ eq ++ lo) 0 none (hi ++ eq ++ lo).length
+      = (some hi.length, hi.length + eq.length) := by
+  rw [List.append_assoc, tieLoop_hi t hi _ 0 none _ hhi]
   cases eq with
   | nil => exact absurd rfl hne
   | cons a eq =>
     have ha : a.stake = t := heq a (List.mem_cons_self ..)
     have heq' : ∀ b ∈ eq, b.stake = t := fun b hb => heq b (List.mem_cons_of_mem _ hb)
-    simp only [List.cons_append, tieLoop, ha, and_self, ↓reduceIte, Nat.zero_add, List.length_cons]
-    by_cases hz : hi.length = 0
-    · -- s was set to 0 again: the next tied entry (if any) sets it to 1
-      simp only [hz]
-      cases eq with
-      | nil =>
-        simp only [List.nil_append, List.length_nil]
-        rw [tieLoop_lo t lo _ _ _ hlo]
-        have : hi = [] := List.eq_nil_of_length_eq_zero hz
-        subst this
-        cases lo <;> simp [codedStart]
-      | cons b eq =>
-        have hb : b.stake = t := heq' b (List.mem_cons_self ..)
-        have heq'' : ∀ c ∈ eq, c.stake = t := fun c hc => heq' c (List.mem_cons_of_mem _ hc)
-        simp only [List.cons_append, tieLoop, hb, and_self, ↓reduceIte, List.length_cons]
-        rw [tieLoop_eq_nz t eq lo _ 1 _ (by omega) heq'', tieLoop_lo t lo _ _ _ hlo]
-        have : hi = [] := List.eq_nil_of_length_eq_zero hz
-        subst this
-        cases lo <;> simp [codedStart] <;> omega
-    · rw [tieLoop_eq_nz t eq lo _ hi.length _ hz heq', tieLoop_lo t lo _ _ _ hlo]
-      cases lo <;> simp [codedStart, hz] <;> omega
+    simp only [List.cons_append, tieLoop, ha, Option.isNone_none, and_self, ↓reduceIte, Nat.zero_add, List.length_cons]
+    rw [tieLoop_eq_some t eq lo _ hi.length _ heq', tieLoop_lo t lo _ _ _ hlo]
+    cases lo <;> simp <;> omega
 
 /-! ### the pick loop -/
 
@@ -302,15 +280,16 @@ theorem split_index (t : Nat) (hi eq lo : List Node)
     simp only [Option.getD_some] at ht; omega
 
 theorem tieLoop_of_sorted (R : List Node) (hs : StakeSorted R) (t : Nat) (hne : eqOf t R ≠ []) :
-    tieLoop t R 0 0 R.length
-      = (codedStart (hiOf t R).length (eqOf t R).length, (hiOf t R).length + (eqOf t R).length) := by
+    tieLoop t R 0 none R.length
+      = (some (hiOf t R).length, (hiOf t R).length + (eqOf t R).length) := by
   have h := tieLoop_spec t (hiOf t R) (eqOf t R) (loOf t R)
     (fun a ha => (mem_hiOf.mp ha).2) (fun a ha => (mem_eqOf.mp ha).2) (fun a ha => (mem_loOf.mp ha).2) hne
   rw [← stakeSorted_split t R hs] at h
   exact h
 
 /-- What `reduceN` returns in the tie branch (more rest candidates than free places `y = m - x > 0`), in
-closed form. `R`, `x`, `m`, `t` are names for the model's intermediate values. -/
+closed form. `R`, `x`, `m`, `t` are names for the model's intermediate values; the coded search finds the real
+start of the tie range, the number of entries with more than the cut-off stake. -/
 theorem reduceN_tie_branch (cs : List Node) (limit q : Nat) (inPrev : Nat → Bool) (perms : Nat → List Nat)
     (R : List Node) (hRdef : R = restSorted cs inPrev q)
     (x : Nat) (hxdef : x = quotaSize cs inPrev q)
@@ -318,14 +297,11 @@ theorem reduceN_tie_branch (cs : List Node) (limit q : Nat) (inPrev : Nat → Bo
     (t : Nat) (htdef : t = (R.getD (m - x - 1) default).stake)
     (hx : x < m) (hR : m - x < R.length) :
     (reduceN cs limit q inPrev perms).selected =
-      quotaNodes cs inPrev q ++ R.take (codedStart (hiOf t R).length (eqOf t R).length) ++
-        ((perms ((hiOf t R).length + (eqOf t R).length - codedStart (hiOf t R).length (eqOf t R).length)).take
-            (m - x - codedStart (hiOf t R).length (eqOf t R).length)).map
-          (fun j => ((R.drop (codedStart (hiOf t R).length (eqOf t R).length)).take
-            ((hiOf t R).length + (eqOf t R).length - codedStart (hiOf t R).length (eqOf t R).length)).getD j default)
+      quotaNodes cs inPrev q ++ R.take (hiOf t R).length ++
+        ((perms (eqOf t R).length).take (m - x - (hiOf t R).length)).map
+          (fun j => ((R.drop (hiOf t R).length).take (eqOf t R).length).getD j default)
     ∧ (hiOf t R).length < m - x ∧ m - x ≤ (hiOf t R).length + (eqOf t R).length
-    ∧ (hiOf t R).length + (eqOf t R).length ≤ R.length
-    ∧ codedStart (hiOf t R).length (eqOf t R).length ≤ m - x := by
+    ∧ (hiOf t R).length + (eqOf t R).length ≤ R.length := by
   have hsorted : StakeSorted R := by rw [hRdef]; exact (restSorted_sorted cs inPrev q).stakeSorted
   have hsplit := stakeSorted_split t R hsorted
   have hyk : m - x - 1 < R.length := by omega
@@ -337,32 +313,25 @@ theorem reduceN_tie_branch (cs : List Node) (limit q : Nat) (inPrev : Nat → Bo
   have hlen : (hiOf t R).length + (eqOf t R).length ≤ R.length := by
     have := congrArg List.length hsplit
     simp only [List.length_append] at this; omega
+  have hloop := tieLoop_of_sorted R hsorted t hne
   generalize hnhi : (hiOf t R).length = nhi at *
   generalize hneq : (eqOf t R).length = neq at *
-  have hs : codedStart nhi neq ≤ m - x := by
-    unfold codedStart; split
-    · split <;> omega
-    · omega
-  have hs2 : codedStart nhi neq ≤ nhi + neq := by
-    unfold codedStart; split
-    · split <;> omega
-    · omega
-  refine ⟨?_, by omega, by omega, hlen, hs⟩
-  have hloop := tieLoop_of_sorted R hsorted t hne
-  rw [hnhi, hneq] at hloop
-  generalize codedStart nhi neq = s at *
+  refine ⟨?_, by omega, by omega, hlen⟩
   subst hRdef hxdef hmdef
   unfold reduceN
   have c1 : ¬ (quotaSize cs inPrev q ≤ min limit cs.length ∧
       (restSorted cs inPrev q).length ≤ min limit cs.length - quotaSize cs inPrev q) := by omega
   simp only [c1, hx, ↓reduceIte]
   rw [← htdef, hloop, pickLoop_eq]
-  have htl : ((List.drop s (restSorted cs inPrev q)).take (nhi + neq - s)).length = nhi + neq - s := by
+  simp only [Option.getD_some]
+  have he : nhi + neq - nhi = neq := by omega
+  rw [he]
+  have htl : ((List.drop nhi (restSorted cs inPrev q)).take neq).length = neq := by
     rw [List.length_take, List.length_drop]; omega
   simp only [htl, List.length_append, quotaNodes_length, List.length_take]
-  have : min limit cs.length - (quotaSize cs inPrev q + min s (restSorted cs inPrev q).length)
-      = min limit cs.length - quotaSize cs inPrev q - s := by
-    have : min s (restSorted cs inPrev q).length = s := by omega
+  have : min limit cs.length - (quotaSize cs inPrev q + min nhi (restSorted cs inPrev q).length)
+      = min limit cs.length - quotaSize cs inPrev q - nhi := by
+    have : min nhi (restSorted cs inPrev q).length = nhi := by omega
     rw [this]; omega
   rw [this]
 
@@ -382,6 +351,23 @@ theorem drop_hi_take_eq {t : Nat} {R : List Node} (hs : StakeSorted R) :
   have h := stakeSorted_split t R hs
   generalize hiOf t R = A at *; generalize eqOf t R = B at *; generalize loOf t R = C at *
   subst h; rw [List.append_assoc, List.drop_left]; exact List.take_left
+
+/-- the tie branch in terms of the three stake classes of the remaining candidates: everything above the cut-off
+stake, then — among ALL candidates at the cut-off stake, in id order — those at the first positions of the permutation. -/
+theorem reduceN_tie_closed (cs : List Node) (limit q : Nat) (inPrev : Nat → Bool) (perms : Nat → List Nat)
+    (R : List Node) (hRdef : R = restSorted cs inPrev q)
+    (x : Nat) (hxdef : x = quotaSize cs inPrev q)
+    (m : Nat) (hmdef : m = min limit cs.length)
+    (t : Nat) (htdef : t = (R.getD (m - x - 1) default).stake)
+    (hx : x < m) (hR : m - x < R.length) :
+    (reduceN cs limit q inPrev perms).selected =
+      quotaNodes cs inPrev q ++ hiOf t R ++
+        ((perms (eqOf t R).length).take (m - x - (hiOf t R).length)).map (fun j => (eqOf t R).getD j default)
+    ∧ (hiOf t R).length < m - x ∧ m - x ≤ (hiOf t R).length + (eqOf t R).length := by
+  obtain ⟨hsel, h1, h2, _⟩ := reduceN_tie_branch cs limit q inPrev perms R hRdef x hxdef m hmdef t htdef hx hR
+  have hsorted : StakeSorted R := by rw [hRdef]; exact (restSorted_sorted cs inPrev q).stakeSorted
+  rw [take_hi hsorted, drop_hi_take_eq hsorted] at hsel
+  exact ⟨hsel, h1, h2⟩
 
 theorem take_split (R : List Node) (s e : Nat) (h : s ≤ e) :
     R.take e = R.take s ++ (R.drop s).take (e - s) := by
